@@ -25,6 +25,9 @@ type c15Consumer struct {
 	Limit     int    `json:"limit"`      // stopped: number of items read before it stops reading
 	DelayUs   int    `json:"delay_us"`   // stopped: despawn that long after it stopped reading
 	SlowUs    int    `json:"slow_us"`    // slow: maximal sleep between reads
+	// DoubleDespawn: after DespawnOutput(id) has returned it is called once more with the same id (it must answer with its error and leave
+	// no trace: the id is handed to the next consumer that attaches)
+	DoubleDespawn bool `json:"double_despawn"`
 }
 
 type c15Scenario struct {
@@ -365,6 +368,12 @@ func c15RunScenario(sc c15Scenario) (res c15ScenarioOut) {
 				o.DespawnMs = float64(time.Since(td).Microseconds()) / 1000
 				o.DespawnReturned = true
 				o.DespawnErr = ep[0]
+				if c.DoubleDespawn && ep[0] == "" && ep[1] == "" {
+					func() {
+						defer func() { recover() }()
+						f.DespawnOutput(sr.id)
+					}()
+				}
 				if ep[1] != "" {
 					o.Panic = "DespawnOutput: " + ep[1]
 				}
